@@ -169,13 +169,6 @@ impl Desc {
 			}
 		}
 	}
-	fn has_comp(&self) -> bool {
-		match self {
-			Comp { .. } => true,
-			Delay { fx, .. } => fx.iter().any(|d| d.has_comp()),
-			_ => false,
-		}
-	}
 	fn is_linear(&self) -> bool {
 		match self {
 			Dist { .. } | Comp { .. } => false,
@@ -298,26 +291,29 @@ impl EffectBuilder for Boxed {
 }
 
 /// the libm calls of the compressor that depend on the signal: a mirror of compressor.rs
-fn comp_oracle(d: &Desc, sr: u32, input: &[Frame], tab: &mut Tab) {
+/// (segments = consecutive runs at possibly different sample rates; the envelope carries over)
+fn comp_oracle(d: &Desc, segments: &[(u32, &[Frame])], tab: &mut Tab) {
 	if let Comp { thr, ratio, att, rel, .. } = d {
-		let dt = 1.0 / sr as f64;
 		let threshold = *thr as f32;
 		let ratio = *ratio as f32;
 		let mut env = [0.0f32; 2];
-		for f in input {
-			let chans = [f.left, f.right];
-			for i in 0..2 {
-				let a = chans[i].abs();
-				let l = a.log10();
-				tab.insert((T_LOG10F, obs32(a), obs32(l)));
-				let input_db = 20.0 * l;
-				let over = (input_db - threshold).max(0.0);
-				let duration = if env[i] > over { *rel } else { *att };
-				let speed = (-1.0 / (duration.as_secs_f64() / dt)).exp();
-				env[i] = over + speed as f32 * (env[i] - over);
-				let gr = env[i] * ((1.0 / ratio) - 1.0);
-				let arg = gr / 20.0;
-				tab.insert((T_POWF10, obs32(arg), obs32(10.0f32.powf(arg))));
+		for (sr, input) in segments {
+			let dt = 1.0 / *sr as f64;
+			for f in input.iter() {
+				let chans = [f.left, f.right];
+				for i in 0..2 {
+					let a = chans[i].abs();
+					let l = a.log10();
+					tab.insert((T_LOG10F, obs32(a), obs32(l)));
+					let input_db = 20.0 * l;
+					let over = (input_db - threshold).max(0.0);
+					let duration = if env[i] > over { *rel } else { *att };
+					let speed = (-1.0 / (duration.as_secs_f64() / dt)).exp();
+					env[i] = over + speed as f32 * (env[i] - over);
+					let gr = env[i] * ((1.0 / ratio) - 1.0);
+					let arg = gr / 20.0;
+					tab.insert((T_POWF10, obs32(arg), obs32(10.0f32.powf(arg))));
+				}
 			}
 		}
 	}
@@ -572,7 +568,7 @@ fn emit_case(s: &mut Session, cx: &Ctx, kind: &str, d: &Desc, sr: u32, t: usize,
 	};
 	let mut tab = Tab::new();
 	d.oracle(sr, &mut tab);
-	comp_oracle(d, sr, input, &mut tab);
+	comp_oracle(d, &[(sr, input)], &mut tab);
 	let tabs = format!("[{}]", tab.iter().map(|(t, a, b)| format!("({}, {}, {})", t, z(*a), z(*b))).collect::<Vec<_>>().join("; "));
 	let ins = format!("[{}]", input.iter().map(|f| format!("({}, {})", f32_bits_z(f.left), f32_bits_z(f.right))).collect::<Vec<_>>().join("; "));
 	let sl = format!("[{}]", slices.iter().map(|x| x.to_string()).collect::<Vec<_>>().join("; "));
@@ -581,6 +577,57 @@ fn emit_case(s: &mut Session, cx: &Ctx, kind: &str, d: &Desc, sr: u32, t: usize,
 	let key = if nontrivial { Some(format!("{:016x}", hash(&term))) } else { None };
 	s.case(kind, term, &obs, key);
 	out
+}
+
+/// init at `sr1`, process `in1`, `on_change_sample_rate(sr2)`, process `in2`
+fn emit_case_sr(s: &mut Session, cx: &Ctx, d: &Desc, sr1: u32, sr2: u32, t: usize, sl1: &[usize], in1: &[Frame], sl2: &[usize], in2: &[Frame]) {
+	let out = catch(|| {
+		let mut e = d.build();
+		e.init(sr1, t);
+		let mut res = vec![];
+		for (k, (sr, sl, input)) in [(sr1, sl1, in1), (sr2, sl2, in2)].into_iter().enumerate() {
+			if k == 1 {
+				e.on_change_sample_rate(sr2);
+			}
+			let dt = 1.0 / sr as f64;
+			let mut buf = input.to_vec();
+			let mut pos = 0usize;
+			for &n in sl {
+				let end = (pos + n).min(buf.len());
+				e.on_start_processing();
+				e.process(&mut buf[pos..end], dt, &cx.info);
+				pos = end;
+			}
+			if pos < buf.len() {
+				e.on_start_processing();
+				e.process(&mut buf[pos..], dt, &cx.info);
+			}
+			res.extend(buf);
+		}
+		res
+	});
+	let obs = match &out {
+		Outcome::Ok(v) => {
+			let mut o = vec![0];
+			o.extend(frames_obs(v));
+			o
+		}
+		Outcome::Panic(c) => vec![1, *c],
+		Outcome::Hang => vec![2],
+	};
+	let mut tab = Tab::new();
+	d.oracle(sr1, &mut tab);
+	d.oracle(sr2, &mut tab);
+	comp_oracle(d, &[(sr1, in1), (sr2, in2)], &mut tab);
+	let tabs = format!("[{}]", tab.iter().map(|(t, a, b)| format!("({}, {}, {})", t, z(*a), z(*b))).collect::<Vec<_>>().join("; "));
+	let fr = |v: &[Frame]| format!("[{}]", v.iter().map(|f| format!("({}, {})", f32_bits_z(f.left), f32_bits_z(f.right))).collect::<Vec<_>>().join("; "));
+	let sl = |v: &[usize]| format!("[{}]", v.iter().map(|x| x.to_string()).collect::<Vec<_>>().join("; "));
+	let term = format!("CaseSR {} {} {} {} {} {} {} {} {}", sr1, sr2, t, tabs, d.term(), sl(sl1), fr(in1), sl(sl2), fr(in2));
+	let key = Some(format!("{:016x}", hash(&term)));
+	s.case("sample_rate_change", term, &obs, key);
+	if !matches!(out, Outcome::Ok(_)) {
+		s.fail(format!("{:?} @ {} -> {} Hz", d, sr1, sr2), format!("panics across a sample-rate change: {}", last_panic()), None);
+	}
 }
 
 fn describe(d: &Desc, sr: u32) -> String {
@@ -664,7 +711,7 @@ pub fn run(args: &Args) {
 					if i % 3 == 0 {
 						(6, sr)
 					} else {
-						(if args.thorough { 48 } else { 26 }, *rng.pick(&[441u32, 500, 700, 1000]))
+						(if args.thorough { 60 } else { 40 }, *rng.pick(&[441u32, 441, 500, 700]))
 					}
 				}
 				Delay { .. } => (rng.range(8, 30) as usize, sr),
@@ -695,6 +742,25 @@ pub fn run(args: &Args) {
 		let d = Delay { time: Duration::from_secs_f64(20.25 / sr as f64), fb: -6.0, mix: 0.5, fx: vec![] };
 		let (input, _) = gen_signal(&mut rng, 24);
 		emit_case(&mut s, &cx, "delay_slice_exceeds_internal_buffer", &d, sr, 8, &[4, 12, 8], &input);
+	}
+	// --- on_change_sample_rate between two runs (delay lines reallocated, reverb rebuilt, filter
+	//     state kept, coefficients follow the new dt)
+	for i in 0..(if args.thorough { 120 } else { 24 }) * mul {
+		let (sr1, sr2) = if i % 4 == 3 { (*rng.pick(&[441u32, 500]), *rng.pick(&[700u32, 441])) } else { (gen_sr(&mut rng), gen_sr(&mut rng)) };
+		let d = loop {
+			let d = gen_desc(&mut rng, sr1.max(8000), 1, true, true, false);
+			let is_rev = matches!(d, Reverb { .. });
+			if (i % 4 == 3) == is_rev {
+				break d;
+			}
+		};
+		let t = *rng.pick(&[4usize, 8, 16]);
+		let n = if matches!(d, Reverb { .. }) { 20 } else { rng.range(6, 16) as usize };
+		let (in1, _) = gen_signal(&mut rng, n);
+		let in2 = noise(&mut rng, n, 1.0);
+		let sl1 = gen_slices(&mut rng, n, t);
+		let sl2 = gen_slices(&mut rng, n, t);
+		emit_case_sr(&mut s, &cx, &d, sr1, sr2, t, &sl1, &in1, &sl2, &in2);
 	}
 	// --- regression corpus of the two repaired findings (a recurrence is a VIOLATION) and the
 	//     witness of the remaining _refuted lemma, replayed on the implementation
